@@ -101,17 +101,18 @@ static void canon_model(const std::vector<TN> &l, std::string &out)
 		out += ' ';
 	}
 }
-struct Feat { size_t nodes, maxlen, maxname; bool nested, quoted, escq, emptysect, emptyval, dup, depth3, blankname, emptyname; };
+struct Feat { size_t nodes, maxlen, maxname; bool assignform, nested, quoted, escq, emptysect, emptyval, dup, depth3, blankname, emptyname; };
 static void features(const std::vector<TN> &l, int depth, Feat &f)
 {
 	for (size_t i = 0; i < l.size(); ++i) {
 		const TN &n = l[i];
 		++f.nodes;
 		if (n.val.size() > f.maxlen) f.maxlen = n.val.size();
-		if (n.quote) { f.quoted = true; if (n.val.find_first_of("\"'`") != std::string::npos) f.escq = true; }
+		if (n.quote && n.quote != 3) { f.quoted = true; if (n.val.find_first_of("\"'`") != std::string::npos) f.escq = true; }
 		if (n.sect && n.kids.empty()) f.emptysect = true;
 		if (n.name.find(' ') != std::string::npos) f.blankname = true;
 		if (n.name.empty()) f.emptyname = true;
+		if (n.quote == 3) f.assignform = true;
 		if (n.name.size() > f.maxname) f.maxname = n.name.size();
 		if (!n.sect && n.val.empty()) f.emptyval = true;
 		if (!n.kids.empty()) { f.nested = true; if (depth >= 2) f.depth3 = true; }
@@ -130,6 +131,7 @@ static int src_getc(void *a)
 	++s->after_eof;
 	return -2;
 }
+static std::string g_texterr;   // set by canon_real: a stored value that the string interface does not deliver
 static void canon_real(const mpt::node *first, const mpt::node *parent, bool top, std::string &out, std::string &linkerr)
 {
 	const mpt::node *prev = 0;
@@ -141,6 +143,12 @@ static void canon_real(const mpt::node *first, const mpt::node *parent, bool top
 			size_t len = 0; const char *d = mpt::mpt_node_data(n, &len);
 			if (!d) v = len ? "<unreadable>" : "";
 			else { v.assign(d, len); if (len && !v[len - 1]) v.resize(len - 1); }   // stored text carries its terminating NUL
+			// the same text through the string interface (mpt_node_data(node, 0) -> convert('s')), as property setters read it
+			if (!v.empty() && v.find('\0') == std::string::npos) {
+				const char *t = mpt::mpt_node_data(n, 0);
+				if (!t) g_texterr = fmt("value of %zu bytes of node '%s' is not delivered by mpt_node_data(node, 0) / convert('s')", v.size(), id ? (strlen(id) > 20 ? "(long)" : id) : "");
+				else if (v != t) g_texterr = fmt("value of %zu bytes of node '%s' reads differently through convert('s')", v.size(), id ? (strlen(id) > 20 ? "(long)" : id) : "");
+			}
 		}
 		out += valrepr(v);
 		if (n->prev != prev) linkerr = "prev link does not point to the preceding sibling";
@@ -149,7 +157,7 @@ static void canon_real(const mpt::node *first, const mpt::node *parent, bool top
 		out += ' ';
 	}
 }
-struct Parsed { int ret; std::string canon, linkerr; bool asan; size_t line, consumed; };
+struct Parsed { int ret; std::string canon, linkerr, texterr; bool asan; size_t line, consumed; };
 static Parsed real_parse(Run &r, const Fmt &f, const std::string &doc)
 {
 	Parsed p; p.asan = false;
@@ -164,7 +172,9 @@ static Parsed real_parse(Run &r, const Fmt &f, const std::string &doc)
 	r.hint(f.style == '*' ? "parse|pre" : (f.style == ' ' ? "parse|sep" : "parse|enc"));
 	p.ret = mpt::mpt_parse_node(root, &pc, f.fmt);
 	p.line = pc.src.line; p.consumed = s.i;
+	g_texterr.clear();
 	if (p.ret >= 0) canon_real(root->children, root, true, p.canon, p.linkerr);
+	p.texterr = g_texterr;
 	mpt::mpt_node_clear(root);
 	free(root);
 	p.asan = asan_error();
@@ -190,7 +200,7 @@ static void flatten(const std::vector<TN> &l, int depth, const Fmt &f, std::vect
 }
 static std::string quoted(const Fmt &f, const TN &n)
 {
-	if (!n.quote) return n.val;
+	if (!n.quote || n.quote == 3) return n.val;   // 3: zero-length option name written with the assignment character
 	char q = (n.quote == 2 && f.esc[1]) ? f.esc[1] : f.esc[0];
 	std::string s(1, q);
 	for (char c : n.val) { if (c == q) s += '\\'; s += c; }
@@ -253,7 +263,7 @@ static std::string render(const Fmt &f, const std::vector<TN> &tree, unsigned ma
 		case 0:
 			if (!l.n->name.empty()) { d += l.n->name; d += pa; d += f.assign; d += pb; }
 			// zero-length option name: "= value" in the prepending style, a value-only line where mpt_parse_option reads the line
-			else if (f.style == '*' && !f.oend) { d += f.assign; d += pb; }
+			else if ((f.style == '*' && !f.oend) || l.n->quote == 3) { d += f.assign; d += pb; }
 			d += quoted(f, *l.n);
 			if (f.oend) { d += pa; d += f.oend; }
 			break;
@@ -297,7 +307,7 @@ static std::string render(const Fmt &f, const std::vector<TN> &tree, unsigned ma
 		name_last = d.size() > nm.size() && d[d.size() - 1] == '\n' && d.compare(d.size() - 1 - nm.size(), nm.size(), nm) == 0;
 	}
 	// likewise the line end that terminates a value-only line (zero-length option name) read by mpt_parse_option
-	if (!lines.empty() && lines.back().kind == 0 && lines.back().n->name.empty() && f.style != '*' && !(mask & (BLANK | COMLINE))) name_last = true;
+	if (!lines.empty() && lines.back().kind == 0 && lines.back().n->name.empty() && lines.back().n->quote != 3 && f.style != '*' && !(mask & (BLANK | COMLINE))) name_last = true;
 	if ((mask & NOEOL) && !name_last && !d.empty() && d[d.size() - 1] == '\n') d.resize(d.size() - 1);
 	return d;
 }
@@ -345,7 +355,7 @@ static void gen_item(Gen &g, TN &n, bool sect, size_t sib)
 	n.sect = sect; n.quote = 0;
 	const std::vector<const char *> &names = sect ? g.sn : g.on;
 	n.name = names[(sib + g.pick(names.size())) % names.size()];
-	if (!sect) { if (n.name.empty()) set_value(g.f, n, 0); else set_value(g.f, n, g.vals[g.pick(g.vals.size())]); }
+	if (!sect) { if (n.name.empty()) { set_value(g.f, n, 0); if (g.f.style != '*' && g.pick(2)) n.quote = 3; } else set_value(g.f, n, g.vals[g.pick(g.vals.size())]); }
 }
 static void gen_list(Gen &g, std::vector<TN> &out, int depth)
 {
@@ -402,6 +412,7 @@ void mc_jobs(Tier t, std::vector<std::string> &jobs)
 		add_tree_jobs(jobs, 3, 2, 0, 7, "few", 1);
 		add_tree_jobs(jobs, 2, 2, 0, 7, "all+ws", 1);
 		for (int i = 0; i < NFMT; ++i) jobs.push_back(fmt("cxx:%s:2:2:0:7:min:0/1", fmts[i].id));
+		for (int i = 0; i < NFMT; ++i) jobs.push_back(fmt("cxx:%s:2:2:1:7:two:0/1", fmts[i].id));
 	} else {
 		for (int i = 0; i < NFMT; ++i) for (unsigned k = 0; k < 4; ++k) jobs.push_back(fmt("len:%s:thorough+ws:%u/4", fmts[i].id, k));
 		add_tree_jobs(jobs, 2, 2, 2, 7, "fewalt", 4);
@@ -445,10 +456,10 @@ static std::vector<size_t> lens_for(const std::string &set)
 }
 
 // ------------------------------------------------------------------ one case
-enum Cnt { C_OK, C_CASES, C_UNDECO, C_NESTED, C_DEPTH3, C_QUOTED, C_ESCQ, C_EMPTYSECT, C_EMPTYVAL, C_DUP, C_BLANKNAME, C_EMPTYNAME, C_LONGNAME, C_NOTCONSUMED, C_TREES, C_NONTRIVIAL,
+enum Cnt { C_OK, C_CASES, C_UNDECO, C_NESTED, C_DEPTH3, C_QUOTED, C_ESCQ, C_EMPTYSECT, C_EMPTYVAL, C_DUP, C_BLANKNAME, C_EMPTYNAME, C_ASSIGNFORM, C_LONGNAME, C_NOTCONSUMED, C_TREES, C_NONTRIVIAL,
            C_LEN0, C_LEN1, C_LEN2, C_LEN3, C_BIT0, C_NCNT = C_BIT0 + 10 };
 static const char *cntname[] = { "held", "cases", "undecorated", "tree:nested", "tree:depth3", "value:quoted", "value:escaped-quote-kept", "tree:empty-section", "value:empty",
-           "tree:duplicate-sibling-names", "name:with-blank", "name:empty", "name:256-or-longer", "input-not-fully-consumed(not flagged)", "trees", "nontrivial",
+           "tree:duplicate-sibling-names", "name:with-blank", "name:empty", "name:empty,written-with-assign", "name:256-or-longer", "input-not-fully-consumed(not flagged)", "trees", "nontrivial",
            "value:short", "value:len250-254", "value:len255-65535", "value:len>=65536" };
 static uint64_t g_cnt[C_NCNT];
 // per-tree cache: everything that does not depend on the decoration mask
@@ -490,6 +501,7 @@ static void check_case(Run &r, const Fmt &f, const std::vector<TN> &tree, unsign
 	bool plain_ok = tc.plain_ret >= 0 && tc.plain_canon == tc.want;
 	bool this_ok = p.ret >= 0 && p.canon == tc.want && p.linkerr.empty();
 	if (p.asan) { r.violation(tc.sigbase + "memory", describe(f, mask, flav, doc) + ": AddressSanitizer report while parsing / releasing the tree"); bad = true; }
+	else if (this_ok && !p.texterr.empty()) { r.violation(tc.sigbase + "unreadable-as-text", describe(f, mask, flav, doc) + ": " + p.texterr); bad = true; }
 	else if (this_ok) { /* decorated and undecorated text both have to give the generating tree; a wrong undecorated parse is reported by the mask-0 case */ }
 	else if (mask && plain_ok) {
 		r.violation(tc.sigbase + "decoration-changes-result", describe(f, mask, flav, doc) + (p.ret < 0 ? fmt(": decorated parse returned %d at line %zu", p.ret, p.line) : ": decorated parse [" + p.canon + "]" + (p.linkerr.empty() ? "" : " (" + p.linkerr + ")"))
@@ -505,7 +517,7 @@ static void check_case(Run &r, const Fmt &f, const std::vector<TN> &tree, unsign
 	if (mask) { for (int b = 0; b < NBITN; ++b) if (mask & (1u << b)) ++g_cnt[C_BIT0 + b]; }
 	else ++g_cnt[C_UNDECO];
 	g_cnt[C_NESTED] += ft.nested; g_cnt[C_DEPTH3] += ft.depth3; g_cnt[C_QUOTED] += ft.quoted; g_cnt[C_ESCQ] += ft.escq;
-	g_cnt[C_EMPTYSECT] += ft.emptysect; g_cnt[C_EMPTYVAL] += ft.emptyval; g_cnt[C_DUP] += ft.dup; g_cnt[C_BLANKNAME] += ft.blankname; g_cnt[C_EMPTYNAME] += ft.emptyname; g_cnt[C_LONGNAME] += ft.maxname >= 256;
+	g_cnt[C_EMPTYSECT] += ft.emptysect; g_cnt[C_EMPTYVAL] += ft.emptyval; g_cnt[C_DUP] += ft.dup; g_cnt[C_BLANKNAME] += ft.blankname; g_cnt[C_EMPTYNAME] += ft.emptyname; g_cnt[C_ASSIGNFORM] += ft.assignform; g_cnt[C_LONGNAME] += ft.maxname >= 256;
 	++g_cnt[C_LEN0 + tc.lencl];
 	if (mask && (ft.nested || ft.maxlen >= 250 || ft.maxname >= 250)) ++g_cnt[C_NONTRIVIAL];
 	if (bad) return;
@@ -518,9 +530,9 @@ static void check_case(Run &r, const Fmt &f, const std::vector<TN> &tree, unsign
 // (document 2, document 1, switch): a fresh parser reads document 2 (must give the generating tree); a second parser
 // object reads document 1, is then pointed at document 2 either by reset() (same file name, new content) or by open()
 // of another file, and reads again into the same target node: the second result must be the fresh parser's result.
-enum { X_HIST, X_RESET, X_REOPEN, X_D1SAME, X_D1EMPTY, X_D1OPT, X_D1SECT, X_D1ESECT, X_RESETFAIL, X_NCNT };
+enum { X_HIST, X_RESET, X_REOPEN, X_D1SAME, X_D1EMPTY, X_D1OPT, X_D1SECT, X_D1ESECT, X_D1BROKEN, X_D1FAILED, X_RESETFAIL, X_NCNT };
 static const char *xname[] = { "cxx:histories", "cxx:switch-by-reset", "cxx:switch-by-open", "cxx:first-document-same", "cxx:first-document-empty",
-                               "cxx:first-document-ends-with-option", "cxx:first-document-ends-with-section-end", "cxx:first-document-ends-with-empty-section", "cxx:reset-refused(not flagged)" };
+                               "cxx:first-document-ends-with-option", "cxx:first-document-ends-with-section-end", "cxx:first-document-ends-with-empty-section", "cxx:first-document-malformed", "cxx:first-read-failed-then-reused", "cxx:reset-refused(not flagged)" };
 static uint64_t g_xcnt[X_NCNT];
 static std::string g_file[2];
 static bool put_file(int k, const std::string &doc)
@@ -557,12 +569,13 @@ static void fixed_tree(int which, std::vector<TN> &t)
 }
 static void cxx_case(Run &r, const Fmt &f, const std::vector<TN> &tree, unsigned mask, Ctx &x)
 {
-	size_t d1 = x.choose(5), sw = x.choose(2);
+	size_t d1 = x.choose(6), sw = x.choose(2);
 	std::string want2; canon_model(tree, want2);
 	std::string doc2 = render(f, tree, mask), doc1, want1;
 	if (d1 == 0) { doc1 = doc2; want1 = want2; }
+	else if (d1 == 5) doc1 = "broken name\nnext\n";   // refused in most formats: the failed read must not influence the next one
 	else if (d1 >= 2) { std::vector<TN> t1; fixed_tree((int) d1 - 2, t1); doc1 = render(f, t1, 0); canon_model(t1, want1); }
-	static const char *d1n[] = { "the same document", "an empty document", "a document ending with an option", "a document ending with a section end", "a document ending with an empty section" };
+	static const char *d1n[] = { "the same document", "an empty document", "a document ending with an option", "a document ending with a section end", "a document ending with an empty section", "a malformed document" };
 	std::string hist = sw ? "reopen" : "reset";
 	std::string what = fmt("format %s \"%s\" mask %#x: read %s [%s], %s, read [%s]", f.id, f.fmt ? f.fmt : "(default)", mask, d1n[d1], show(doc1).c_str(),
 	                       sw ? "open() another file" : "reset() with new file content", show(doc2).c_str());
@@ -602,7 +615,8 @@ static void cxx_case(Run &r, const Fmt &f, const std::vector<TN> &tree, unsigned
 		if (asan) { r.violation("cxx|" + hist + "|memory", what + ": AddressSanitizer report"); return; }
 		if (!opened || fresh.ret < 0) { r.violation("cxx|fresh|refused", what + fmt(": fresh parser open %d, read returned %d", (int) opened, fresh.ret)); return; }
 		if (fresh.canon != want2 || !fresh.linkerr.empty()) { r.violation("cxx|fresh|wrong-tree", what + ": fresh parser gave [" + fresh.canon + "] " + fresh.linkerr + ", expected [" + want2 + "]"); return; }
-		if (first.ret < 0 || first.canon != want1 || !first.linkerr.empty()) { r.violation("cxx|fresh|wrong-tree", what + fmt(": first read returned %d [", first.ret) + first.canon + "] expected [" + want1 + "]"); return; }
+		if (d1 == 5) { if (first.ret < 0) ++g_xcnt[X_D1FAILED]; }
+		else if (first.ret < 0 || first.canon != want1 || !first.linkerr.empty()) { r.violation("cxx|fresh|wrong-tree", what + fmt(": first read returned %d [", first.ret) + first.canon + "] expected [" + want1 + "]"); return; }
 		if (!switched) { ++g_xcnt[X_RESETFAIL]; }
 		else if ((second.ret >= 0) != (fresh.ret >= 0) || second.canon != fresh.canon || !second.linkerr.empty())
 			{ r.violation("cxx|" + hist + "|differs-from-fresh", what + fmt(": second read returned %d [", second.ret) + second.canon + "] " + second.linkerr + ", a fresh parser gives [" + fresh.canon + "]"); return; }
